@@ -48,6 +48,7 @@ def dispatch (op : String) (args : List String) (impl : String) : Answer :=
   | "C17.dec" => c17Dec args impl
   | "IX.exec" => ixExec args impl
   | "IX.total" => ixTotal impl
+  | "IX.totaljson" => ixTotal impl
   | "IX.dbg" => ixDbg args impl
   | "C04.mut" => c04Mut args impl
   | "C18.race" => c18Race args impl
